@@ -563,6 +563,55 @@ def cond_scenarios(draw):
 
 
 @st.composite
+def owner_stays_scenario(draw):
+    """Directed family for the ownership clause: an original aux x0 is listed by a frame that stays entered (an over
+    frame common to near and far, or a frame of another running framer) and by a second frame that the framer keeps
+    trying to enter. x0 may complete (`done me`) while it stays entered and owned: the attempts must be refused for as
+    long as the owner is not exited."""
+    geq = lambda k: {"kind": "cmp", "state": ".n.a", "op": ">=", "goal": k, "neg": False}
+    rec = lambda k: {"kind": "recurred", "op": ">=", "goal": k, "neg": False}
+    obs = lambda ctx, p: {"kind": "inc", "dst": p, "val": 1, "ctx": ctx}
+    xa = {"name": "xa", "over": None, "acts": [obs("enter", ".n.c"), obs("recur", ".n.c"), obs("exit", ".n.c")]}
+    xframes = [xa]
+    fin = draw(st.integers(0, 2))
+    if fin == 1:
+        xa["acts"].append({"kind": "done", "targets": ["me"], "ctx": draw(st.sampled_from(["enter", "recur"]))})
+    elif fin == 2:
+        xa["acts"].append({"kind": "go", "far": "xb", "needs": [rec(draw(st.integers(1, 3)))]})
+        xframes.append({"name": "xb", "over": None, "acts": [{"kind": "done", "targets": ["me"]}]})
+    aux = {"name": "x0", "sched": "aux", "order": None, "period": None, "first": None, "frames": xframes}
+    use = {"kind": "aux", "name": "x0", "needs": []}
+    drv = {"name": "drv", "sched": "active", "order": "front", "period": None, "first": None,
+           "frames": [{"name": "drva", "over": None, "acts": [{"kind": "inc", "dst": ".n.a", "val": 1, "ctx": "recur"}]}]}
+    t1, t2 = draw(st.integers(1, 5)), draw(st.integers(2, 9))
+    if draw(st.booleans()):
+        # common over frame T owns x0, the under frame b lists it too
+        frames = [{"name": "T", "over": None, "acts": [dict(use), obs("recur", ".n.b"),
+                                                        {"kind": "go", "far": "z", "needs": [geq(t1 + t2)]}]},
+                  {"name": "a", "over": "T", "acts": [obs("exit", ".n.b"), {"kind": "go", "far": "b", "needs": [geq(t1)]}]},
+                  {"name": "b", "over": "T", "acts": [dict(use), obs("enter", ".n.b"),
+                                                      {"kind": "go", "far": "a", "needs": [rec(draw(st.integers(1, 2)))]}]},
+                  {"name": "z", "over": None, "acts": [{"kind": "go", "far": draw(st.sampled_from(["b", "T"])), "needs": [rec(1)]}]}]
+        framers = [drv, {"name": "m0", "sched": "active", "order": None, "period": None, "first": None, "frames": frames}, aux]
+    else:
+        # a frame of another running framer owns x0
+        hold = [{"name": "hold", "over": None, "acts": [dict(use), {"kind": "go", "far": "rest", "needs": [geq(t1 + t2)]}]},
+                {"name": "rest", "over": None, "acts": [obs("recur", ".n.b")]}]
+        take = [{"name": "idle", "over": None, "acts": [obs("exit", ".n.b"), {"kind": "go", "far": "grab", "needs": [geq(t1)]}]},
+                {"name": "grab", "over": None, "acts": [dict(use), obs("enter", ".n.b")]}]
+        framers = [drv, {"name": "m0", "sched": "active", "order": None, "period": None, "first": None, "frames": hold},
+                   {"name": "m1", "sched": "active", "order": None, "period": None, "first": None, "frames": take}, aux]
+    return {"period": "0.125", "ticks": draw(st.integers(8, 16)), "inits": [[p, 0] for p in NUM], "framers": framers}
+
+
+@st.composite
+def guard_family(draw):
+    if draw(st.integers(0, 3)) == 0:
+        return draw(owner_stays_scenario())
+    return draw(guard_scenario())
+
+
+@st.composite
 def guard_scenario(draw):
     """Directed family for entry guards: a framer that keeps attempting transitions into guarded frames
     (frame `let` guards at one or two levels, plain auxiliaries whose first frames are guarded, the same
@@ -605,8 +654,18 @@ def guard_scenario(draw):
         xa = {"name": "xa", "over": None, "acts": [obs("recur", ".n.c")]}
         if draw(st.integers(0, 2)) > 0:
             xa["acts"].insert(0, {"kind": "let", "needs": [guard()]})
-        auxes.append({"name": "x0", "sched": "aux", "order": None, "period": None, "first": None, "frames": [xa]})
-    b_acts.append({"kind": "go", "far": draw(st.sampled_from(["a", "a", "d", "me"])), "needs": [rec(draw(st.integers(1, 3)))]})
+        xframes = [xa]
+        fin = draw(st.integers(0, 3))
+        if fin == 1:
+            # the aux completes in its first run and stays entered (and owned) with its main frame
+            xa["acts"].append({"kind": "done", "targets": ["me"], "ctx": "recur"})
+        elif fin == 2:
+            xa["acts"].append({"kind": "go", "far": "xb", "needs": [rec(draw(st.integers(1, 3)))]})
+            xframes.append({"name": "xb", "over": None, "acts": [{"kind": "done", "targets": ["me"]}]})
+        auxes.append({"name": "x0", "sched": "aux", "order": None, "period": None, "first": None, "frames": xframes})
+    # (from b down into its own under frame c: b stays entered and keeps owning its aux)
+    b_acts.append({"kind": "go", "far": draw(st.sampled_from(["a", "a", "d", "me"] + (["c", "c"] if nested else []))),
+                   "needs": [rec(draw(st.integers(1, 3)))]})
     frames.append({"name": "b", "over": None, "acts": b_acts})
     if nested:
         c_acts = [obs("enter", ".n.b")]
